@@ -312,10 +312,11 @@ const lexerPosInvariant = "lexer position invariant, outside the linear engine: 
 
 // trustedBounds: sub-obligations accepted without proof. One entry per named construct.
 var trustedBounds = map[string]trustedPart{
-	"lexer.(*Lexer).prevChar|index l.input[(l.pos-1:int)]":              {[]string{"index < len"}, lexerPosInvariant + "; prevChar is only reached with char != 0 (readHTML loop condition, '@' test in isDirectiveToken)"},
-	"lexer.(*Lexer).readIdentifier|slice l.input[l.pos:l.pos]":          {[]string{"high <= len", "low <= high"}, lexerPosInvariant},
-	"lexer.(*Lexer).readNumber|slice l.input[l.pos:l.pos]":              {[]string{"high <= len", "low <= high"}, lexerPosInvariant},
-	"lexer.(*Lexer).readString|slice l.input[l.pos:l.pos]":              {[]string{"high <= len", "low <= high"}, lexerPosInvariant},
-	"object.(*Array).Dump|slice String(out)[(len(String(out))-8:int):]": {[]string{"low >= 0"}, "the buffer always starts with the constant 60-byte header written unconditionally above, so len(res) >= 8"},
-	"token.String|index tokens[t]":                                      {[]string{"index >= 0", "index < len"}, "TokenType values are the iota constants (>= 0) held in the token tables; latent only: DUMP is the one TokenType >= len(tokens); the lexer emits directive tokens only in HTML mode while every expectPeek call (the only non-constant caller) runs in code mode or with peek in {END, ELSE, ELSE_IF, EOF}, so DUMP never reaches String; reported as information, no failing input exists"},
+	"lexer.(*Lexer).prevChar|index l.input[(l.pos-1)]":              {[]string{"index < len"}, lexerPosInvariant + "; prevChar is only reached with char != 0 (readHTML loop condition, '@' test in isDirectiveToken)"},
+	"lexer.(*Lexer).readIdentifier|slice l.input[l.pos:l.pos]":      {[]string{"high <= len", "low <= high"}, lexerPosInvariant},
+	"lexer.(*Lexer).readNumber|slice l.input[l.pos:l.pos]":          {[]string{"high <= len", "low <= high"}, lexerPosInvariant},
+	"lexer.(*Lexer).readString|slice l.input[l.pos:l.pos]":          {[]string{"high <= len", "low <= high"}, lexerPosInvariant},
+	"object.(*Array).Dump|slice String(out)[(len(String(out))-8):]": {[]string{"low >= 0"}, "the buffer always starts with the constant 60-byte header written unconditionally above, so len(res) >= 8"},
+	"lexer.(*Lexer).skipComment|slice l.input[l.pos:]":              {[]string{"low <= len"}, lexerPosInvariant + "; the slice is taken under the loop condition l.char != 0, where pos < len(input)"},
+	"token.String|index tokens[t]":                                  {[]string{"index >= 0", "index < len"}, "TokenType values are the iota constants (>= 0) held in the token tables; latent only: DUMP is the one TokenType >= len(tokens); the lexer emits directive tokens only in HTML mode while every expectPeek call (the only non-constant caller) runs in code mode or with peek in {END, ELSE, ELSE_IF, EOF}, so DUMP never reaches String; reported as information, no failing input exists"},
 }
